@@ -484,6 +484,8 @@ def c14_jobs(tier, repo):
     if tier == "quick":
         return (_bj("C14", ["--set=single", "--bound=1"], "single hostile PDU, 1 deviation incl. partial writes", 4)
                 + _bj("C14", ["--set=semantic", "--bound=1"], "3-PDU responses, 1 deviation incl. partial writes", 4)
+                + _bj("C14", ["--set=semantic", "--bound=3", "--no-recv-dev"], "3-PDU responses, up to 3 partial writes / send errors", 2)
+                + _bj("C14", ["--set=single", "--bound=3", "--no-recv-dev"], "single hostile PDU, up to 3 partial writes / send errors", 2)
                 + _bj("C14", ["--set=single", "--bound=0"], "single hostile PDU (msan shadow of send buffers)", 2, BYTES_MSAN)
                 + _bj("C14", ["--set=semantic", "--bound=0"], "3-PDU responses (msan shadow of send buffers)", 2, BYTES_MSAN))
     return (_bj("C14", ["--set=single", "--bound=2"], "single hostile PDU, 2 deviations", 8)
@@ -580,18 +582,20 @@ C15_BUILD = dict(flavour="asan", name="c15_mgr", harness_srcs=["c15_mgr.c"],
 
 def c15_jobs(tier, repo):
     q = tier == "quick"
-    cfgs = [("1", "5", 10 if q else 14, ["--malformed"]),
-            ("2", "5", 8 if q else 10, []),
-            ("1,1", "1,2", 9 if q else 12, []),
-            ("1,1", "2,1", 9 if q else 12, ["--spare-dup"]),
-            ("2,1", "1,2", 7 if q else 9, []),
-            ("2,1", "2,1", 7 if q else 9, []),
-            ("1,2", "1,2", 7 if q else 9, ["--spare-dup"]),
-            ("1,1,1", "1,2,3", 6 if q else 8, []),
-            ("1,1,1", "3,1,2", 6 if q else 8, ["--spare-dup"]),
-            ("1,1,1", "2,3,1", 6 if q else 8, []),
-            ("2,1,1", "2,3,1", 5 if q else 7, []),
-            ("1,2,2", "3,2,1", 5 if q else 7, [])]
+    # preferences are multiples of 10 so that the spare group 15 lands between two groups and spare 0 in front
+    cfgs = [("1", "10", 10 if q else 14, ["--malformed", "--dyn=3"]),
+            ("2", "20", 8 if q else 10, ["--dyn=3"]),
+            ("1,1", "10,20", 9 if q else 12, ["--dyn=3"]),
+            ("1,1", "20,10", 9 if q else 12, ["--spare-dup"]),
+            ("1,1", "0,255", 8 if q else 11, []),
+            ("2,1", "10,20", 7 if q else 9, []),
+            ("2,1", "20,10", 7 if q else 9, []),
+            ("1,2", "10,20", 7 if q else 9, ["--spare-dup"]),
+            ("1,1,1", "10,20,30", 6 if q else 8, []),
+            ("1,1,1", "30,10,20", 6 if q else 8, ["--spare-dup"]),
+            ("1,1,1", "20,30,10", 6 if q else 8, []),
+            ("2,1,1", "20,30,10", 5 if q else 7, []),
+            ("1,2,2", "30,20,10", 5 if q else 7, [])]
     jobs = [Job("c15_mgr", C15_BUILD, ["--groups=" + g, "--prefs=" + p, "--max-depth=%d" % d] + x,
                 "groups[%s] prefs[%s] depth<=%d %s" % (g, p, d, " ".join(x))) for g, p, d, x in cfgs]
     # conformance of the socket-lifecycle relation with the real FSM
